@@ -82,6 +82,30 @@ def expand_names(ids, rule, shape):
     return out
 
 
+def expand_names_seq(ids, rule, first):
+    """one macro process derives carriers of both roles one after the other (`first` role first): the derive of
+    an item must not depend on what was derived before it.  -> {(pos, id): tokens}"""
+    def item(pos, group):
+        if pos == "field":
+            return '#[ts(rename_all = "%s")] struct S { %s }' % (rule, " ".join("%s: u8," % i for i in group))
+        return '#[ts(rename_all = "%s")] enum E { %s }' % (rule, " ".join("%s," % i for i in group))
+    order = [first, "variant" if first == "field" else "field"]
+    groups = [(pos, g) for pos in order for g in batches(ids, 80)]
+    res = macrodrv.expand([item(pos, g) for pos, g in groups], tag="c09q")
+    out = {}
+    for (pos, g), (kind, text) in zip(groups, res):
+        if kind != "OK":
+            continue                     # panicking identifiers are found by the single-role runs
+        names = macrodrv.unit_variant_names(text) if pos == "variant" else macrodrv.field_names(text)
+        if len(names) == 2 * len(g) and names[:len(g)] == names[len(g):]:
+            names = names[:len(g)]
+        if len(names) != len(g):
+            raise ToolError("cannot read %d names from the expansion (%d found)" % (len(g), len(names)))
+        for i, n in zip(g, names):
+            out[(pos, i)] = to_toks(n)
+    return out
+
+
 def run(tier):
     return run_core(tier, PROP)[0]
 
@@ -123,8 +147,18 @@ def run_core(tier, prop):
         for shape in ("rename_all_fields", "variant_rename_all"):
             for i, n in expand_names(short, rule, shape).items():
                 extra[(shape, rule, i)] = n
+    # both roles in one macro process, in both orders (identifiers on which nothing panics)
+    calm = [i for i in short if all(ts[(pos, rule, i)] != ["PANIC"] for pos in ("field", "variant") for rule in RULES)]
+    seq = {}
+    for rule in RULES:
+        for first in ("field", "variant"):
+            for (pos, i), n in expand_names_seq(calm, rule, first).items():
+                seq[(pos, rule, i, first)] = n
     # ADJUDICATE
     recs, meta = [], []
+    for (pos, rule, i, first), n in seq.items():
+        recs.append({"id": by_id[i]["id"], "pos": pos, "rule": rule, "ts": n, "serde": serde[(pos, rule, i)]})
+        meta.append((pos, rule, i, "%s carrier, %ss derived first in the same macro process" % (pos, first)))
     for (pos, rule, i), n in ts.items():
         recs.append({"id": by_id[i]["id"], "pos": pos, "rule": rule, "ts": n, "serde": serde[(pos, rule, i)]})
         meta.append((pos, rule, i, pos))
@@ -162,7 +196,7 @@ def run_core(tier, prop):
            "identifiers": len(ids), "records_adjudicated": len(recs), "drift": len(drift),
            "outside_domain_serde_itself_panics": excluded, "serde_derive_version": serde_version,
            "exhaustive": True,
-           "rule": "every legal Rust identifier of length <= %d over {ASCII lower, ASCII upper, digit, _, non-ASCII lower, non-ASCII upper, sharp s} x 8 rules x {struct field, enum variant}, plus struct-variant fields under rename_all_fields and under a variant's own rename_all for the short identifiers" % (4 if tier == "quick" else 5)}
+           "rule": "every legal Rust identifier of length <= %d over {ASCII lower, ASCII upper, digit, _, non-ASCII lower, non-ASCII upper, sharp s} x 8 rules x {struct field, enum variant}, plus struct-variant fields under rename_all_fields and under a variant's own rename_all for the short identifiers; the short identifiers also with field and variant carriers derived one after the other in one macro process, in both orders" % (4 if tier == "quick" else 5)}
     if prop == PROP:
         vlib.write_evidence(prop, tier, "model_checking", cov,
                             ["identifiers on which serde_derive's own conversion panics have no wire name and are outside C09 (they stay in C16)",
